@@ -447,3 +447,105 @@ Proof.
   split; [repeat constructor|]. split; [simpl; repeat split; repeat constructor|].
   repeat split; vm_compute; reflexivity.
 Qed.
+
+(** ---- the on-disk correspondence lifted to a whole pool and a whole run (Proofs/C05_OnDiskPool.v) ---- *)
+From Elfi Require Import Proofs.C05_OnDiskPool.
+
+(** a disk pool = store name |-> state of its on-disk store, all with batch size [bs]; [abs_pool] =
+    per store the reported batches through [store_of_batches (enc n)] (no batch: the store object
+    that does not exist yet).  What the PoolLoader reads from the disk pool for batch i is
+    [Pool.get_batch] of the abstraction, for every i; the reads leave the abstraction unchanged. *)
+Theorem C05_on_disk_pool_get_batch :
+  forall bs, 0 < bs -> forall (orc : name -> oracle) (enc : name -> batch -> value) dp i,
+  dp_good bs orc dp ->
+  disk_loaded bs orc enc dp i = Pool.get_batch (abs_pool bs enc dp) i
+  /\ abs_pool bs enc (fst (disk_get_batch bs orc dp i)) = abs_pool bs enc dp
+  /\ dp_good bs orc (fst (disk_get_batch bs orc dp i)).
+Proof. exact disk_get_batch_abs. Qed.
+Print Assumptions C05_on_disk_pool_get_batch.
+
+(** add_batch commutes with the abstraction when every batch has [bs] rows ([add_sized]) and the
+    index is contiguous for every store that receives a batch ([add_contig]: i <= batches held) *)
+Theorem C05_on_disk_pool_add_batch :
+  forall bs, 0 < bs -> forall (orc : name -> oracle) (enc : name -> batch -> value) dp dout i,
+  dp_good bs orc dp -> add_sized bs dp dout -> add_contig bs dp dout i ->
+  abs_pool bs enc (disk_add_batch bs orc dp dout i) = Pool.add_batch (abs_pool bs enc dp) (enc_out enc dout) i
+  /\ dp_good bs orc (disk_add_batch bs orc dp dout i).
+Proof. exact disk_add_batch_abs. Qed.
+Print Assumptions C05_on_disk_pool_add_batch.
+
+(** the commuting diagram along a run, any batch indices, contiguity and representability assumed at
+    every step ([ok_at]) *)
+Theorem C05_on_disk_pool_run_general :
+  forall bs, 0 < bs -> forall orc enc dec idxs ds,
+  dp_good bs orc (dr_pool ds) -> run_all bs orc enc dec (ok_at bs enc dec) ds idxs ->
+  map_res (abs_run bs enc) (run_batches_disk bs orc enc dec ds idxs) = Pool.run_batches (abs_state bs enc ds) idxs.
+Proof. exact run_batches_disk_abs. Qed.
+Print Assumptions C05_on_disk_pool_run_general.
+
+(** BatchHandler indices k, k+1, ...: contiguity holds at every step by itself ([part_inv ds k]: the
+    stores of the net's nodes hold 0 .. k-1; trivial for k = 0) *)
+Theorem C05_on_disk_pool_contiguity :
+  forall bs, 0 < bs -> forall orc enc dec n k ds,
+  dp_good bs orc (dr_pool ds) -> CacheOK (dr_cache ds) -> part_inv bs ds k ->
+  run_all bs orc enc dec (repr_at bs enc dec) ds (seq k n) ->
+  run_all bs orc enc dec (ok_at bs enc dec) ds (seq k n)
+  /\ forall ds' obs, run_batches_disk bs orc enc dec ds (seq k n) = Ok (ds', obs) ->
+       dp_good bs orc (dr_pool ds') /\ CacheOK (dr_cache ds').
+Proof. exact contig_along_run. Qed.
+Print Assumptions C05_on_disk_pool_contiguity.
+
+(** a run over batches 0 .. n-1 from the empty pool, as [Pool.agree] runs the model: same success or
+    error, same outputs and call logs, the final disk pool abstracts to the final pool; the only
+    side condition is that the stored values are batches of [bs] rows ([repr_at]) *)
+Theorem C05_on_disk_pool_run :
+  forall bs, 0 < bs -> forall orc enc dec keys g n,
+  let ds0 := {| dr_net := g; dr_pool := empty_dpool keys; dr_cache := empty_cache |} in
+  run_all bs orc enc dec (repr_at bs enc dec) ds0 (seqn n) ->
+  map_res (abs_run bs enc) (run_batches_disk bs orc enc dec ds0 (seqn n))
+  = Pool.run_batches {| rs_net := g;
+                        rs_pool := {| stores := map (fun k => (k, None)) keys; pl_batch_size := None; pl_seed := None |};
+                        rs_cache := empty_cache |} (seqn n).
+Proof. exact run_batches_disk_from_empty. Qed.
+Print Assumptions C05_on_disk_pool_run.
+
+(** two runs from 0 with ArrayPool.flush / close+open / pickle of all stores in between *)
+Theorem C05_on_disk_pool_two_runs :
+  forall bs, 0 < bs -> forall orc enc dec n1 n2 ds ds1 obs1 ps g2 c2,
+  dp_good bs orc (dr_pool ds) -> CacheOK (dr_cache ds) -> neutral ps ->
+  run_all bs orc enc dec (repr_at bs enc dec) ds (seq 0 n1) ->
+  run_batches_disk bs orc enc dec ds (seq 0 n1) = Ok (ds1, obs1) ->
+  (c2 = dr_cache ds1 \/ CacheOK c2) ->
+  let ds2 := {| dr_net := g2; dr_pool := dp_all bs orc (dr_pool ds1) ps; dr_cache := c2 |} in
+  run_all bs orc enc dec (repr_at bs enc dec) ds2 (seq 0 n2) ->
+  Pool.run_batches (abs_state bs enc ds) (seq 0 n1) = Ok (abs_state bs enc ds1, obs1)
+  /\ abs_pool bs enc (dp_all bs orc (dr_pool ds1) ps) = abs_pool bs enc (dr_pool ds1)
+  /\ map_res (abs_run bs enc) (run_batches_disk bs orc enc dec ds2 (seq 0 n2))
+     = Pool.run_batches {| rs_net := g2; rs_pool := abs_pool bs enc (dr_pool ds1); rs_cache := c2 |} (seq 0 n2).
+Proof. exact run_batches_disk_two_runs. Qed.
+Print Assumptions C05_on_disk_pool_two_runs.
+
+(** Non-vacuity: two stores of 2 rows per batch; batch 0 goes to both, all stores are flushed and
+    reopened, batch 1 goes to "a" only.  The disk pool abstracts to the pool Pool.v computes and the
+    loader reads the same for batches 0, 1, 2.  Then the difference: on an index gap (batch 1 into
+    the empty pool) Pool.v's dict takes the batch, the on-disk store raises and holds nothing. *)
+Example C05_on_disk_pool_example :
+  let o := fun (_ : name) (_ : nat) => 0 in
+  let enc := fun _ : name => c5_enc in
+  let dp0 := empty_dpool ["a"; "b"]%string in
+  let out0 := [("a", c5_b0); ("b", c5_b1)]%string in
+  let out1 := [("a"%string, c5_bx)] in
+  let dp3 := disk_add_batch 2 o (dp_all 2 o (disk_add_batch 2 o dp0 out0 0) [PFlush; PReopen]) out1 1 in
+  let p3 := Pool.add_batch (Pool.add_batch (abs_pool 2 enc dp0) (enc_out enc out0) 0) (enc_out enc out1) 1 in
+  abs_pool 2 enc dp3 = p3
+  /\ stores p3 = [("a", Some [(0, c5_enc c5_b0); (1, c5_enc c5_bx)]); ("b", Some [(0, c5_enc c5_b1)])]%string
+  /\ map (disk_loaded 2 o enc dp3) [0; 1; 2] = map (Pool.get_batch p3) [0; 1; 2]
+  /\ stores (Pool.add_batch (abs_pool 2 enc dp0) (enc_out enc out0) 1)
+     = [("a", Some [(1, c5_enc c5_b0)]); ("b", Some [(1, c5_enc c5_b1)])]%string
+  /\ stores (abs_pool 2 enc (disk_add_batch 2 o dp0 out0 1)) = [("a", None); ("b", None)]%string
+  /\ ~ add_contig 2 dp0 out0 1.
+Proof.
+  cbv zeta. repeat split; try (vm_compute; reflexivity).
+  intros H. specialize (H "a"%string ds_new c5_b0 (or_introl eq_refl) eq_refl). vm_compute in H.
+  exact (Nat.nle_succ_0 _ H).
+Qed.
